@@ -420,6 +420,7 @@ func run(c *runner.Ctx) {
 	if !persistent {
 		manyTagNames(c, d)
 		samePrintingTypes(c, d)
+		twinTypes(c, d)
 		spuriousMisses(c, d, all, expect, 3)
 		lateRegistration(c, d)
 		sharedRuleMap(c, d)
@@ -932,4 +933,95 @@ func main() {
 		Run:         run,
 		Modes:       []runner.Mode{{Name: "inproc"}, {Name: "default", Workers: 8}, {Name: "direct0", Workers: 2}, {Name: "directmap", Workers: 2}, {Name: "direct1", Workers: 3}, {Name: "direct2", Workers: 3}},
 	})
+}
+
+// twinTypes (round 13): struct types that agree in every field name and every rule text and differ only in the Go type
+// of one field (string / int / time.Time / *time.Time / []string / a struct): a cached description belongs to the type
+// it was made for. Every ordered pair is validated first-then-second on every configuration; each call is judged by the
+// walk model of its own type.
+func twinTypes(c *runner.Ctx, d *deleg) {
+	c.Space(c.Mode + ":types-that-differ-only-in-a-field-type")
+	type inner struct {
+		V string `valid:"required|in-v" a:"required|in-v"`
+	}
+	kinds := []struct {
+		name string
+		t    reflect.Type
+		set  func(v reflect.Value, bad bool)
+	}{
+		{"string", reflect.TypeOf(""), func(v reflect.Value, bad bool) {
+			if !bad {
+				v.SetString("ab")
+			}
+		}},
+		{"int", reflect.TypeOf(0), func(v reflect.Value, bad bool) {
+			if !bad {
+				v.SetInt(2)
+			}
+		}},
+		{"time.Time", reflect.TypeOf(time.Time{}), func(v reflect.Value, bad bool) {
+			if !bad {
+				v.Set(reflect.ValueOf(time.Unix(1, 0)))
+			}
+		}},
+		{"*time.Time", reflect.TypeOf(&time.Time{}), func(v reflect.Value, bad bool) {
+			if !bad {
+				t := time.Unix(1, 0)
+				v.Set(reflect.ValueOf(&t))
+			}
+		}},
+		{"[]string", reflect.TypeOf([]string{}), func(v reflect.Value, bad bool) {
+			if !bad {
+				v.Set(reflect.ValueOf([]string{"a", "b"}))
+			}
+		}},
+		{"struct", reflect.TypeOf(inner{}), func(v reflect.Value, bad bool) {
+			if !bad {
+				v.Set(reflect.ValueOf(inner{V: "x"}))
+			}
+		}},
+	}
+	mk := func(k int) reflect.Type {
+		return reflect.StructOf([]reflect.StructField{
+			{Name: "Name", Type: reflect.TypeOf(""), Tag: `valid:"required|n" a:"to=1~3|n-a"`},
+			{Name: "At", Type: kinds[k].t, Tag: `valid:"required|at" a:"required|at-a,ge=2|at-ge"`},
+			{Name: "Tail", Type: reflect.TypeOf(0), Tag: `valid:"ge=5|tail" a:"required|tail-a"`},
+		})
+	}
+	for _, cf := range cfgs {
+		for i := range kinds {
+			for j := range kinds {
+				if i == j || !c.Take() {
+					continue
+				}
+				d.inner = cf.mk()
+				for _, tag := range []string{"valid", "a"} {
+					for step, k := range []int{i, j, i, j} {
+						for _, bad := range []bool{true, false} {
+							p := reflect.New(mk(k))
+							p.Elem().Field(0).SetString("abcd")
+							kinds[k].set(p.Elem().Field(1), bad)
+							p.Elem().Field(2).SetInt(1)
+							var err error
+							pan, msg, site := runner.Guard(func() { err = valid.ValidateStruct(p.Interface(), tag) })
+							got := ""
+							if err != nil {
+								got = err.Error()
+							}
+							want := walk.Struct(p.Interface(), walk.Opts{Tag: tag}).Error()
+							det := map[string]interface{}{"config": cf.name, "field_type": kinds[k].name, "other_type_of_the_pair": kinds[[]int{j, i, j, i}[step]].name, "tag": tag, "step": step, "field_left_empty": bad, "expected": want, "actual": got}
+							if pan {
+								det["panic"] = msg
+								c.Violation("panic@"+site, det)
+							} else if got != want {
+								c.Violation("twin-types/judged-by-the-description-of-the-other-type", det)
+							}
+						}
+					}
+				}
+				c.Done(true, 16)
+				c.Outcome("ok")
+			}
+		}
+	}
 }
